@@ -22,7 +22,7 @@ EXPECT = {
     'sq': ('cell:<lambda>@18', [[0, 1]]),
     'cube': ('cell:<lambda>@19', [[0, 2]]),
 }
-MOD_EXPECT = {'lpv_mod.py:mf': [[1, 1], [2, 4], [3, 3], [4, 1]], 'lpv_mod.py:mg': [[1, 1]]}
+MOD_EXPECT = {'lpv_mod.py:mf': [[1, 1], [2, 4], [3, 3], [4, 1]], 'lpv_mod.py:mg': [[1, 1]], 'lpv_mod.py:run': [[1, 1]]}     # not: lpv_base.Base.helper, inherited by lpv_mod.Child
 
 
 def cases(ctx):
@@ -81,7 +81,7 @@ def oracle(c, r):
         got = {k: v for k, v in r['timings'].items() if v}
         if got != want:
             bad.append({'statistics': got, 'expected_exactly': want})
-        wantreg = sorted([{'sq': '<lambda>', 'cube': '<lambda>'}.get(f, f) for f in c['funcs']] + (['mf', 'mg'] if 'lpv_mod' in c['mods'] else []) + (['pinner'] if 'lpv_pkg.sub' in c['mods'] else []))
+        wantreg = sorted([{'sq': '<lambda>', 'cube': '<lambda>'}.get(f, f) for f in c['funcs']] + (['Child.run', 'mf', 'mg'] if 'lpv_mod' in c['mods'] else []) + (['pinner'] if 'lpv_pkg.sub' in c['mods'] else []))
         if sorted(r['registered']) != wantreg:
             bad.append({'registered': r['registered'], 'named': wantreg})
         if r['enable_count_after'] != 0:
